@@ -338,6 +338,11 @@ def small_arr(r, dt, lens):
 
 def gen_c05(r):
     lens = rnd_lens(r, 7, 4)
+    if r.random() < 0.06:
+        o = opts_for(r, "reduce")
+        o["hi"] = 0
+        o["how"] = r.choice(["method", "np"])
+        return ["wreduce", r.choice(["sum", "sum", "total"]), wide_arr(r, lens)], o, False
     dt = r.choice(["b1", "i1", "u1", "i2", "i8", "i4", "u2", "f8", "f4"])
     arr = small_arr(r, dt, lens)
     if r.random() < 0.3:
@@ -352,8 +357,21 @@ def gen_c05(r):
     return ["reduce", name, arr, axis, keep], opts_for(r, "reduce"), False
 
 
+def wide_arr(r, lens):
+    """an int64 / uint64 array with values beyond 2**53 / 2**63, as 16-bit limbs"""
+    from .enc import limbs
+    wdt = r.choice(["i8", "u8"])
+    base = r.choice([2 ** 53, 2 ** 60, 2 ** 62, 5]) if wdt == "i8" else r.choice([2 ** 53, 2 ** 63, 2 ** 64 - 40, 7])
+    sign = -1 if wdt == "i8" and r.random() < 0.3 else 1
+    return [wdt, [[limbs(sign * (base + r.randint(0, 9))) for _ in range(l)] for l in lens]]
+
+
 def gen_c07(r):
     lens = rnd_lens(r, 7, 5)
+    if r.random() < 0.06:
+        o = opts_for(r, "scan")
+        o["hi"] = 0
+        return ["wreduce", "cumsum", wide_arr(r, lens)], o, False
     name = r.choice(["cumsum", "acc_add", "acc_subtract", "acc_bitwise_xor", "sort", "unique", "unique_counts", "diff", "diff"])
     dt = r.choice(["i1", "u1", "i2", "u2", "i4", "i8", "b1", "f8", "f4", "u4"])
     arr = rnd_arr(r, dt, lens, finite_only=True, infs=0.3 if r.random() < 0.3 else 0.0)
